@@ -29,7 +29,7 @@ EXHAUSTIVE_SUBDOMAINS = ["every single cut and every pair of cuts of each genera
 ASSUMPTIONS = ["streams start at a frame boundary and end with a sentinel frame, so every judged frame is eventually followed "
                "by a frame start", "end-to-end sessions whose bytes were not all delivered before the receive timeout are "
                "counted as inconclusive sessions, never as violations"]
-REQUIRED = ["e2e_quiet_spells_between_reads", "beast_single", "beast_double", "beast_random", "beast_cut_inside_escape", "beast_cut_after_frame_start",
+REQUIRED = ["e2e_quiet_spells_between_reads", "batches_read_back_after_later_reads", "beast_single", "beast_double", "beast_random", "beast_cut_inside_escape", "beast_cut_after_frame_start",
             "beast_rssi", "raw_single", "raw_double", "sky_single", "sky_double", "netsource", "netsource_commb_backlog_over_1000", "second_client_alive", "e2e_sessions"]
 # e2e_midframe_boundary (a recv() boundary inside a frame was actually observed) is reported in the evidence but not
 # required: TCP may coalesce pieces on a loaded machine and that must not turn the verdict inconclusive
@@ -83,6 +83,7 @@ def run_seg(ctx, kind, reader, stream, cuts, exp, extra, info):
     ends = [e for e, _ in exp]
     msgs_exp = [m for _, m in exp]
     emitted = []
+    batches = []
     pos = 0
     for cut in list(cuts) + [len(stream)]:
         if cut <= pos:
@@ -98,6 +99,7 @@ def run_seg(ctx, kind, reader, stream, cuts, exp, extra, info):
         if r[0] != "ok":
             ctx.violation("%s-parser-raises-%s" % (kind, r[1]), cuts=list(cuts), observed=r[1:], **info)
             return False
+        batches.append(r[1])
         for m in (r[1] or []):
             emitted.append(m[0])
             if kind == "beast_rssi" and not (len(m) == 3 and isinstance(m[1], float)):
@@ -126,6 +128,14 @@ def run_seg(ctx, kind, reader, stream, cuts, exp, extra, info):
             ctx.violation("%s-frame-emitted-before-complete" % kind.replace("_rssi", ""), cuts=list(cuts), delivered=pos, emitted=n,
                           complete=upper, **info)
             return False
+    # a consumer may keep the batch objects it was handed (queue.put(messages)) and read them later: what was handed over in
+    # one read is not emptied, refilled or edited by a later read
+    kept = [m[0] for b in batches if b for m in b]
+    if kept != emitted:
+        ctx.violation("%s-batch-handed-over-is-modified-by-a-later-read" % kind.replace("_rssi", ""), cuts=list(cuts)[:40], as_handed_over=emitted[:6],
+                      read_back_later=kept[:6], **info)
+        return False
+    ctx.hit("batches_read_back_after_later_reads")
     return True
 
 
@@ -328,6 +338,7 @@ def m_e2e(ctx, case):
             self.socket = SockProxy(self.socket)
 
         def handle_messages(self, messages):
+            rec.setdefault("batches", []).append(messages)
             for m in messages:
                 rec["emitted"].append(m[0])
             if sentinel in rec["emitted"]:
@@ -380,6 +391,10 @@ def m_e2e(ctx, case):
             ctx.violation("e2e-frame-withheld-although-complete-and-followed", delivered=got_bytes, handed_on=n_out, due=due, **info)
             return
     ctx.hit("e2e_checkpoints", len(rec.get("checkpoints", [])))
+    kept = [m[0] for b in rec.get("batches", []) for m in b]
+    if kept != em:
+        ctx.violation("e2e-batch-handed-over-is-modified-by-a-later-read", as_handed_over=em[:6], read_back_later=kept[:6], **info)
+        return
     if em != msgs_exp[:len(em)]:
         k = next((j for j in range(min(len(em), len(msgs_exp))) if em[j] != msgs_exp[j]), min(len(em), len(msgs_exp)))
         ctx.violation("e2e-frames-corrupted-lost-or-reordered", index=k, emitted=em[k] if k < len(em) else None,
